@@ -120,8 +120,11 @@ func Exec(e Engine, st *Step, probeKeys []string) (problems []string) {
 	return problems
 }
 
-// Diff compares what the specification demands (want) with what the real code did (got).
-func Diff(want, got *Step, withProbes bool) string {
+// Diff compares what the specification demands (want) with what the real code did (got) on the
+// aspects named in scope: res (per-operation results), recs (records read back), lv (persisted version
+// counter), idx (raw index keys), shadow (raw shadow keys), nf (notification batch), probes (index queries).
+// The outcome (accepted / refused / infrastructure error) is always compared.
+func Diff(want, got *Step, scope map[string]bool) string {
 	var d []string
 	add := func(f string, a ...any) { d = append(d, fmt.Sprintf(f, a...)) }
 	if want.Err != got.Err {
@@ -155,19 +158,27 @@ func Diff(want, got *Step, withProbes bool) string {
 	for i := range got.Res.Puts {
 		got.Res.Puts[i].Key = norm(got.Res.Puts[i].Key)
 	}
-	cmpList("put result", len(want.Res.Puts), len(got.Res.Puts), func(i int) (any, any) { return showPut(want.Res.Puts[i]), showPut(got.Res.Puts[i]) })
-	cmpList("delete result", len(want.Res.Dels), len(got.Res.Dels), func(i int) (any, any) { return want.Res.Dels[i], got.Res.Dels[i] })
-	cmpList("delete-range result", len(want.Res.Rngs), len(got.Res.Rngs), func(i int) (any, any) { return want.Res.Rngs[i], got.Res.Rngs[i] })
-	cmpList("record", len(want.Recs), len(got.Recs), func(i int) (any, any) { return showRec(want.Recs[i]), showRec(got.Recs[i]) })
-	cmpList("index entry", len(want.Idx), len(got.Idx), func(i int) (any, any) { return want.Idx[i].Q(), got.Idx[i].Q() })
-	cmpList("shadow key", len(want.Shadow), len(got.Shadow), func(i int) (any, any) { return want.Shadow[i].Q(), got.Shadow[i].Q() })
-	if want.Lv != got.Lv {
+	if scope["res"] {
+		cmpList("put result", len(want.Res.Puts), len(got.Res.Puts), func(i int) (any, any) { return showPut(want.Res.Puts[i]), showPut(got.Res.Puts[i]) })
+		cmpList("delete result", len(want.Res.Dels), len(got.Res.Dels), func(i int) (any, any) { return want.Res.Dels[i], got.Res.Dels[i] })
+		cmpList("delete-range result", len(want.Res.Rngs), len(got.Res.Rngs), func(i int) (any, any) { return want.Res.Rngs[i], got.Res.Rngs[i] })
+	}
+	if scope["recs"] {
+		cmpList("record", len(want.Recs), len(got.Recs), func(i int) (any, any) { return showRec(want.Recs[i]), showRec(got.Recs[i]) })
+	}
+	if scope["idx"] {
+		cmpList("index entry", len(want.Idx), len(got.Idx), func(i int) (any, any) { return want.Idx[i].Q(), got.Idx[i].Q() })
+	}
+	if scope["shadow"] {
+		cmpList("shadow key", len(want.Shadow), len(got.Shadow), func(i int) (any, any) { return want.Shadow[i].Q(), got.Shadow[i].Q() })
+	}
+	if scope["lv"] && want.Lv != got.Lv {
 		add("last version id: spec %d, code %d", want.Lv, got.Lv)
 	}
-	if want.A == "Write" && want.Err == "" {
+	if scope["nf"] && want.A == "Write" && want.Err == "" {
 		cmpList("notification", len(want.Nf), len(got.Nf), func(i int) (any, any) { return showNf(want.Nf[i]), showNf(got.Nf[i]) })
 	}
-	if withProbes {
+	if scope["probes"] {
 		cmpList("index get", len(want.Gets), len(got.Gets), func(i int) (any, any) { return showGet(want.Gets[i]), showGet(got.Gets[i]) })
 		cmpList("index list", len(want.Lists), len(got.Lists), func(i int) (any, any) { return showList(want.Lists[i]), showList(got.Lists[i]) })
 	}
